@@ -64,6 +64,13 @@ def _grammar():
     lvl1 += [(x,) for x in atoms[:4]] + [(0, "a"), ("a", 0), [0, 1], [1, 0], [0], ()]
     lvl1 += [{"k": v} for v in (0, 1, "a", 2.5)] + [{"k": 0, "m": 1}, {"k": 1, "m": 0}, {"m": 0}, {}]
     lvl1 += [_np.array([0.0, 1.0]), _np.array([1.0, 0.0])]
+    # states that differ by a finite-difference perturbation, and long arrays that differ in the middle (a printed
+    # representation shows 8 digits and elides the middle of long arrays)
+    lvl1 += [_np.array([0.82337027, 0.0]), _np.array([0.823370271, 0.0])]
+    long_a = _np.zeros(1500)
+    long_b = long_a.copy()
+    long_b[700] = 1.0
+    lvl1 += [long_a, long_b]
     lvl2 = [(("opt", d),) for d in ({"tol": 1e-6}, {"tol": 1e-3}, {"tol": 1e-6, "n": 1})]
     lvl2 += [{"base": {"tol": 1e-6}}, {"base": {"tol": 1e-3}}, [{"k": 0}], [{"k": 1}], ({"k": 0}, 1), ({"k": 1}, 1)]
     return lvl1 + lvl2
@@ -608,6 +615,37 @@ def _handed_out_objects(chk):
             "B4 exact evaluation", th)
 
 
+def _pickle_histories(chk):
+    """closed histories on REAL objects (pure-Python import of the repository): state set through the public mutators
+    survives pickle round trips (the persistence services pickle the objects)"""
+    def th():
+        import pickle
+        from hiten import System
+        system = System.from_bodies("earth", "moon")
+        l1 = system.get_libration_point(1)
+        cm = l1.get_center_manifold(4)
+        cm.degree = 5
+        cm2 = pickle.loads(pickle.dumps(cm))
+        if cm2.degree != 5:
+            raise Refuted(f"centre manifold: degree {cm.degree} before the round trip, {cm2.degree} after "
+                          f"(history CenterManifold(L1, 4); degree = 5; save; load)", "",
+                          inputs={"history": ["CenterManifold(L1,4)", "degree=5", "pickle", "unpickle"]})
+        o = l1.create_orbit("halo", amplitude_z=0.2, zenith="southern")
+        o.period = 2.75
+        o2 = pickle.loads(pickle.dumps(o))
+        if o2.period != 2.75 or not _np.array_equal(_np.asarray(o2.initial_state), _np.asarray(o.initial_state)) \
+                or o2.amplitude != o.amplitude or o2.family != o.family:
+            raise Refuted("orbit: period / initial state / amplitude / family differ after a pickle round trip",
+                          str((o2.period, o2.amplitude, o2.family)))
+        s2 = pickle.loads(pickle.dumps(system))
+        if s2.mu != system.mu or s2.distance != system.distance:
+            raise Refuted("system: mu / distance differ after a pickle round trip", str((s2.mu, s2.distance)))
+    chk.obl("pickle round trips of real objects: centre manifold keeps a changed degree; orbit keeps a set period, state, "
+            "amplitude, family; system keeps mu and distance", "K2 postconditions (closed histories)",
+            ["hiten.algorithms.types.core:_HitenBase.__getstate__", "hiten.algorithms.types.core:_HitenBase.__setstate__"],
+            "B4 exact evaluation", th)
+
+
 def _primitives(chk):
     import hiten.algorithms.types.services.base as sb
 
@@ -771,6 +809,7 @@ def run(chk):
     _primitives(chk)
     _latest_results(chk)
     _handed_out_objects(chk)
+    _pickle_histories(chk)
     if chk.tier == "thorough":
         _io_witness(chk)
 
